@@ -105,8 +105,13 @@ func streamManageCanary(r *rand.Rand, i int, tier string) *Case {
 	var cat []string
 	cur := newERS("foo-new", genTemplate(r, 2, false), now.Add(-20*time.Minute))
 	old := newERS("foo-old", genTemplate(r, 1, false), now.Add(-2*time.Hour))
-	// previous conditions of the canary replica set
+	// previous conditions of the canary replica set (and the counters its previous sync left)
 	st := &cur.Status
+	if r.Intn(2) == 0 {
+		st.Desired, st.Current, st.Ready, st.Available = int32(r.Intn(6)), int32(r.Intn(6)), int32(r.Intn(6)), int32(r.Intn(6))
+		st.IgnoredUnresponsiveNodes = int32(r.Intn(3))
+		st.Status = pick(r, "", "canary", "active", "unknown")
+	}
 	if r.Intn(3) != 0 {
 		var since time.Duration
 		if c.AutoFail != nil && c.AutoFail.CanaryTimeout != nil {
